@@ -584,3 +584,119 @@ async fn pooled_staking_transaction_of_a_peer_does_not_spoil_the_bundled_block()
          block that Blockchain::add_block refuses ({:?}) instead of a valid block; {} transactions are pooled afterwards \
          (neither staking transaction came back), and the peer's unconfirmed transaction is accepted again as it is: {}", staking_transactions, result, pooled, accepted_again)); }
 }
+
+/// C14 / C11: a peer's unsolved ticket filed under a block does not cost the node its own valid ticket for that block
+#[tokio::test]
+#[serial_test::serial]
+async fn own_ticket_is_not_lost_behind_an_unsolved_ticket_of_a_peer() {
+    #[allow(unused_imports)] use std::ops::Deref;
+    #[allow(unused_imports)] use crate::core::consensus::wallet::Wallet;
+    #[allow(unused_imports)] use crate::core::util::test::test_manager::test::TestManager;
+    #[allow(unused_imports)] use crate::core::consensus::transaction::Transaction;
+    #[allow(unused_imports)] use crate::core::consensus::blockchain::AddBlockResult;
+    #[allow(unused_imports)] use crate::core::consensus::golden_ticket::GoldenTicket;
+    use crate::core::util::crypto::{generate_keys, generate_random_bytes, hash};
+
+    let mut t = TestManager::default();
+    t.initialize(100, 200_000_000_000).await;
+
+    // a few blocks with golden tickets in a row, so that the tip has a difficulty above zero
+    for _ in 0..4 {
+        let tip = t.get_latest_block().await;
+        let mut block = t
+            .create_block(tip.hash, tip.timestamp + 120_000, 0, 0, 0, true)
+            .await;
+        block.generate().unwrap();
+        let result = t.add_block(block).await;
+        assert!(matches!(
+            result,
+            crate::core::consensus::blockchain::AddBlockResult::BlockAddedSuccessfully(
+                _,
+                true,
+                _
+            )
+        ));
+    }
+    let tip = t.get_latest_block().await;
+    assert!(tip.difficulty > 0, "setup : the tip has a difficulty");
+
+    // a peer's ticket for the tip that does not meet the difficulty arrives first
+    let peer_keys = generate_keys();
+    let mut random = hash(&generate_random_bytes(32).await);
+    let mut unsolved = GoldenTicket::create(tip.hash, random, peer_keys.0);
+    while unsolved.validate(tip.difficulty) {
+        random = hash(&generate_random_bytes(32).await);
+        unsolved = GoldenTicket::create(tip.hash, random, peer_keys.0);
+    }
+    let mut unsolved_tx =
+        Wallet::create_golden_ticket_transaction(unsolved, &peer_keys.0, &peer_keys.1).await;
+    unsolved_tx.generate(&peer_keys.0, 0, 0);
+
+    // the node's own miner finds a solution afterwards
+    let (public_key, private_key) = {
+        let wallet = t.wallet_lock.read().await;
+        (wallet.public_key, wallet.private_key)
+    };
+    let own_ticket =
+        TestManager::create_golden_ticket(t.wallet_lock.clone(), tip.hash, tip.difficulty).await;
+    assert!(own_ticket.validate(tip.difficulty));
+    let mut own_tx =
+        Wallet::create_golden_ticket_transaction(own_ticket, &public_key, &private_key).await;
+    own_tx.generate(&public_key, 0, 0);
+
+    let configs = t.config_lock.read().await;
+    let blockchain = t.blockchain_lock.read().await;
+    let mut mempool = t.mempool_lock.write().await;
+
+    mempool.add_golden_ticket(unsolved_tx.clone()).await;
+    mempool.add_golden_ticket(own_tx.clone()).await;
+    assert_eq!(mempool.golden_tickets.len(), 1);
+
+    // a pooled transaction, so that the bundler has something to bundle
+    let mut tx = {
+        let mut wallet = t.wallet_lock.write().await;
+        Transaction::create(&mut wallet, public_key, 1_000, 1_000, false, None, tip.id, 100)
+            .unwrap()
+    };
+    tx.sign(&private_key);
+    tx.generate(&public_key, 0, 0);
+    mempool.add_transaction_if_validates(tx, &blockchain).await;
+    assert_eq!(mempool.transactions.len(), 1);
+
+    // what ConsensusThread::bundle_block does on every tick
+    let picked = mempool
+        .golden_tickets
+        .get(&tip.hash)
+        .map(|(tx, _)| tx.clone());
+    assert!(picked.is_some());
+    let block = mempool
+        .bundle_block(
+            &blockchain,
+            tip.timestamp + 120_000,
+            picked,
+            configs.deref(),
+            &t.storage,
+        )
+        .await;
+
+    // the unsolved ticket is gone (that is the repair) ...
+    let filed = mempool.golden_tickets.get(&tip.hash).map(|(tx, _)| tx.clone());
+    assert!(
+        filed.is_none() || filed.as_ref().unwrap().signature != unsolved_tx.signature,
+        "setup : the unsolved ticket is no longer filed"
+    );
+    // ... but so is the node's own ticket, which nobody will mine again for this tip
+    let own_ticket_bundled = block
+        .as_ref()
+        .map(|block| {
+            block
+                .transactions
+                .iter()
+                .any(|tx| tx.signature == own_tx.signature)
+        })
+        .unwrap_or(false);
+    let own_ticket_filed = filed
+        .map(|tx| tx.signature == own_tx.signature)
+        .unwrap_or(false);
+    if !(own_ticket_bundled || own_ticket_filed) { witness(format!("the node's own valid golden ticket, handed in while a peer's unsolved ticket for the same block was filed, is thrown away and the bundler is left without any ticket for the tip : commit 1d11d04 checks a ticket only at bundling time, add_golden_ticket still lets the first (unchecked) ticket shadow every later one")); }
+}
